@@ -260,6 +260,15 @@ func c06Case(c *core.Ctx, idx int) {
 			rec.Sample(map[string]any{"config": tc.name, "type": typeString(tc.typ), "value": model.Show(v), "bytes": fmt.Sprintf("%x", ref), "prefixes": "len 0/1/17/4096 x cap len, len+1, len+n+64"})
 		}
 	}
+	// ... and whatever was marshalled in between: the values of the case once more, last to first
+	for i := len(seenVals) - 1; i >= 0; i-- {
+		again, err, pn := marshal(tc.p, nil, ptrTo(seenVals[i]))
+		rec.Eval(1)
+		if err != nil || pn != "" || !bytes.Equal(again, seenRefs[i]) {
+			rec.Violation("repetition", fmt.Sprintf("[%s] the encoding of a value changed after other values of the type were marshalled on the instance: %x then, %x now (%v %s)\n  type %s\n  value %s", tc.name, head(seenRefs[i], 80), head(again, 80), err, trunc1(pn), typeString(tc.typ), model.Show(seenVals[i])), caseExtra(tc, seenVals[i], seenRefs[i]))
+			return
+		}
+	}
 	// the result depends on the value alone also while other goroutines marshal other values of the
 	// type on the same instance, by value and by pointer
 	if idx%3 == 2 && len(seenVals) > 1 {
